@@ -92,6 +92,7 @@ int main(int argc, char **argv) {
 	prepare_files();
 	vt = va_vtable();
 	p_libsys_init_full(&vt);
+	hash_refs_prepare();
 	(void)p_uthread_current();
 	for (i = 0; i < NSC && vh_nviol < vh_max_viol; i++) {
 		int rep;
